@@ -30,7 +30,7 @@ def blk : SBlock := { lead := [sp1], items := [(.decl dColor, [sp1]), (.semi, [s
 def sel : SSel := { first := [idt "a" 1], post := g, more := [(gc, [idt "b" 2], g)] }
 def style : SRule := .style sel blk
 def unk : List Tok := [atk "@x", sp, idt "y", sp, semi]
-def media : SRule := .media [(true, false)] g [idt "print"] gc [sp1] (.cons style [sp1] (.cons (.comment (cps "in")) [] .nil))
+def media : SRule := .media [(true, false)] g [idt "print"] gc (some (.sq, cps "nm", gc)) [sp1] (.cons style [sp1] (.cons (.comment (cps "in")) [] .nil))
 def psel : SPageSel :=
   { name := some (cps "cover"), mid := [cps "m"], pseudo := some (cps "first"), pseudoSp := [(true, false), (false, true)] }
 def mblk : SBlock := { last := some dTop }
@@ -41,7 +41,7 @@ def page : SRule := .page [] g psel g pblk
 def href : SHref := .url [(true, false), (false, true), (true, false)] [.space] [] (some .sq) (cps "a.css")
 def sheet : SSheet :=
   { charset := some (.dq, cps "utf-8"), lead := [sp1],
-    imports := [(.import_ [(true, false)] g href g (some ([idt "print"], g)), [sp1])],
+    imports := [(.import_ [(true, false)] g href g (some ([idt "print"], g)) (some (.dq, cps "imp", g)), [sp1])],
     namespaces := [(.namespace_ [] g (some (cps "p", g)) (.str .dq (cps "urn:x")) [], [sp1])],
     rules := .cons style [sp1, sp1] (.cons (.unknown unk) [] (.cons media [] (.cons (.fontface [] g blk) [] (.cons page [] .nil)))) }
 
@@ -99,7 +99,8 @@ theorem sheet_wf : sheet.WF O M := by
   · intro p hp
     simp only [sheet, List.mem_cons, List.mem_nil_iff, or_false] at hp
     subst hp
-    refine ⟨by show (0x5C : Nat) ∉ cps "a.css"; decide, by decide, ?_⟩
+    refine ⟨by show (0x5C : Nat) ∉ cps "a.css"; decide, by decide, ?_,
+      by intro q hq; simp only [Option.some.injEq] at hq; subst hq; show (0x5C : Nat) ∉ cps "imp"; decide⟩
     intro q hq
     simp only [Option.some.injEq] at hq
     subst hq
@@ -113,8 +114,9 @@ theorem sheet_wf : sheet.WF O M := by
     subst hq
     exact ⟨_, _, rfl, by decide⟩
   · refine And.intro (show StyleWF O _ sel blk from style_wf _) (And.intro (show UnknownRuleOk M unk from unk_ok)
-      (And.intro (show MqOk _ ∧ O.mediaOk _ = true ∧ SRules.WF O M _ true _ from
-          ⟨mq_ok, rfl, show StyleWF O _ sel blk from style_wf _, trivial, trivial⟩)
+      (And.intro (show MqOk _ ∧ O.mediaOk _ = true ∧ SRules.WF O M _ true _ ∧ NameWF _ from
+          ⟨mq_ok, rfl, ⟨show StyleWF O _ sel blk from style_wf _, trivial, trivial⟩,
+            by intro q hq; simp only [Option.some.injEq] at hq; subst hq; show (0x5C : Nat) ∉ cps "nm"; decide⟩)
         (And.intro (show false = false ∧ blk.WF O from ⟨rfl, blk_wf O yes_value⟩) (And.intro ?_ trivial))))
     show PageWF O M psel pblk
     refine ⟨⟨?_, ?_⟩, ?_, ?_, by decide⟩
